@@ -217,6 +217,29 @@ func init() {
 	factExtractors["c21_process_calls"] = func(l *Loader) (any, error) { return CallSeq(l, "pkg/capture", "Capture.process"), nil }
 	factExtractors["c21_buffer_calls"] = func(l *Loader) (any, error) { return CallSeq(l, "pkg/capture", "Capture.bufferPackets"), nil }
 	factExtractors["c21_holder_rotate"] = func(l *Loader) (any, error) { return c21McCalls(l, "Manager.rotate"), nil }
+	// the ORDER of the simple statements of the lock holders (e.g. the statistics of a rotation are received
+	// BEFORE the capture is unlocked: afterwards the capture goroutine updates the same counters)
+	for name, fn := range map[string]string{"c21_holder_rotate_order": "Manager.rotate", "c21_holder_status_order": "Manager.Status", "c21_holder_query_order": "Manager.GetFlowMaps"} {
+		fn := fn
+		factExtractors[name] = func(l *Loader) (any, error) {
+			_, fd := mustFunc(l, "pkg/capture", fn)
+			var out []string
+			ast.Inspect(fd.Body, func(n ast.Node) bool {
+				switch x := n.(type) {
+				case *ast.AssignStmt, *ast.ExprStmt, *ast.DeferStmt, *ast.SendStmt, *ast.GoStmt:
+					t := srcText(l, x)
+					if strings.Contains(t, "capLock") || strings.Contains(t, "<-") || strings.Contains(t, "fetchStatusInBackground") || strings.Contains(t, "mc.rotate") || strings.Contains(t, "mc.flowMap") || strings.Contains(t, "mc.status") {
+						if len(t) > 160 {
+							t = t[:160]
+						}
+						out = append(out, t)
+					}
+				}
+				return true
+			})
+			return out, nil
+		}
+	}
 	factExtractors["c21_holder_status"] = func(l *Loader) (any, error) { return c21McCalls(l, "Manager.Status"), nil }
 	factExtractors["c21_holder_query"] = func(l *Loader) (any, error) { return c21McCalls(l, "Manager.GetFlowMaps"), nil }
 
